@@ -23,12 +23,14 @@ for p in props:
         thorough.json.load = lambda fh, _k=keep, _o=orig: (dict(mutants=_k) if fh.name.endswith("mutants.json") else _o(fh))
     thorough.selftests(ctx)
     for r in ctx.selftests:
-        status = "FIRED" if r["fired"] else ("undetected(expected)" if r["applied"] and not r["expect"] else
+        status = ("SILENT(ok)" if r.get("silent") else "FALSE-ALARM") if r.get("must_be_silent") and r["applied"] else "FIRED" if r["fired"] else ("undetected(expected)" if r["applied"] and not r["expect"] else
                                               ("NOT-APPLIED" if not r["applied"] else "MISSED"))
         print("%-4s %-34s %-22s %s %s" % (p, r["mutant"], status, r.get("violations", [])[:3], r.get("note", "")), flush=True)
         allres.append(dict(property=p, **r))
 json.dump(allres, open(os.path.join(os.path.dirname(HERE), "out", "selftests_last.json"), "w"), indent=1)
 missed = [r for r in allres if r["applied"] and r["expect"] and not r["fired"]]
+fa = [r for r in allres if r.get("must_be_silent") and r["applied"] and not r.get("silent")]
+print("refactors: silent=%d false-alarms=%d" % (sum(1 for r in allres if r.get("silent")), len(fa)))
 print("mutants=%d fired=%d missed=%d expected-undetected=%d not-applied=%d" % (
     len(allres), sum(1 for r in allres if r["fired"]), len(missed),
     sum(1 for r in allres if r["applied"] and not r["expect"]), sum(1 for r in allres if not r["applied"])))
